@@ -9,14 +9,35 @@ INTERVALS = [(0, 14), (1, 14), (2, 8), (3, 5), (4, 2), (5, 1), (-1, 2), (-7, 1),
              (65536, 1), (65537, 1), (4294967296, 1), (4294967297, 1), (-4294967296, 1)]
 
 
+# every branch of call_heart_beat / set_heart_beat / f_set_heart_beat / query_heart_beat / error_handler that the model has
+# (tags produced by `nvdrive C11 branches`, lean/NV/C11/Branches.lean)
+BRANCHES = [
+    "chb.num_hb_to_do=0", "chb.num_hb_to_do>0", "chb.entry.no-heart_beat-function", "chb.entry.not-due",
+    "chb.entry.due:call", "chb.next-entry", "chb.exit:++index==num_hb_to_do", "chb.exit:heart_beat_flag(truncated)",
+    "chb.round-abandoned", "error.in-heart_beat:switch-off", "error.no-current_heart_beat",
+    "shb.destructed-return", "shb.clamp-to-SHRT_MAX", "shb.remove.not-on-list",
+    "shb.remove.outside-round(num_hb_to_do=0)", "shb.remove.index<=heart_beat_index:decrement",
+    "shb.remove.index>heart_beat_index:keep", "shb.remove.index<num_hb_to_do:decrement",
+    "shb.remove.index>=num_hb_to_do:keep", "shb.enabled.negative-refused", "shb.enabled.retune",
+    "shb.append.first-allocation", "shb.append.grow-array", "shb.append.room", "shb.append.negative->1",
+    "efun.saturate-high", "efun.saturate-low", "efun.pass", "qhb.on-list", "qhb.flag-off->0",
+    "clone.blueprint-heart-beat-switched-off", "clone.blueprint-has-no-heart-beat", "timer-fired", "heart_beats()",
+]
+
+
 class C11(Prop):
     id = "C11"
     title = "heart_beat runs once per interval per enabled object; faults stay local"
-    lean_modules = ["NV.C11.Props", "NV.C11.Witness"]
+    lean_modules = ["NV.C11.Props", "NV.C11.Witness", "NV.C11.Trace"]
     theorems = [
         "NV.C11.model_satisfies_spec",
         "NV.C11.hb_index_in_bounds",
         "NV.C11.hbs_is_service_order",
+        "NV.C11.at_most_once_per_tick",
+        "NV.C11.disabled_or_destructed_never_called",
+        "NV.C11.judge_ok_implies_clauses",
+        "NV.C11.accepted_trace_ok",
+        "NV.C11.JI_step",
         "NV.C11.complete_round_visits_each_once",
         "NV.C11.beat_only_from_pending",
         "NV.C11.beat_accepted_iff",
@@ -25,6 +46,15 @@ class C11(Prop):
         "NV.C11.interval_stored",
         "NV.C11.error_local",
         "NV.C11.error_local_others",
+        "NV.C11.gen_clampTo_eq",
+        "NV.C11.gen_rmCompensate_eq",
+        "NV.C11.gen_appendStore_eq",
+        "NV.C11.gen_efunSat_eq",
+        "NV.C11.gen_hbBody_eq",
+        "NV.C11.gen_loopStep_eq",
+        "NV.C11.gen_loopContinues_eq",
+        "NV.C11.setHeartBeat_eq_ref",
+        "NV.C11.round_eq_ref",
         "NV.C11.sim_disable",
         "NV.C11.sim_set",
         "NV.C11.sim_round",
@@ -44,12 +74,16 @@ class C11(Prop):
     search_n = 1500
     design_ref = "5/C11"
     technique = ("Lean 4 proof (refinement of the index-compensating round loop to an index-free reference "
-                 "semantics, induction over rounds) + translator-generated constants + model/implementation correspondence")
+                 "semantics, induction over rounds; trace-level corollaries) + clang-AST translator for the decisive conditions/updates of "
+                 "set_heart_beat / f_set_heart_beat / call_heart_beat with bridging lemmas + model/implementation correspondence")
     level_text = ("Lean 4 theorems about an executable model of call_heart_beat / set_heart_beat / query_heart_beat / "
                   "error_handler / destruct / clone for all populations, heart_beat scripts and tick counts; the model is "
-                  "tied to the source by regenerated constants and by running the real code (hook verif_tick) and the model "
-                  "on the same generated histories; the Lean specification oracle judges every implementation trace")
-    level_note = ("trusted: Lean kernel; extract.py; the correspondence harness (differential, only the generated histories); "
+                  "tied to the source by definitions regenerated from the clang AST on every run (index compensation, tick "
+                  "test/reset, clamp, argument saturation, loop exit, while condition - the model uses them, bridging lemmas are "
+                  "obligations), regenerated constants, and by running the real code (hook verif_tick) and the model on the same "
+                  "generated histories; the Lean specification oracle judges every implementation trace")
+    level_note = ("trusted: Lean kernel; extract.py + props/c11_extract.py (symbolic execution of the listed statements, grammar "
+                  "in its header); the correspondence harness (differential, only the generated histories); "
                   "heart_beat bodies are oracle scripts; the timer thread is an explicit 'flag' operation; command_giver / "
                   "eval_cost handling around the call is not modelled")
     rule = ("cases = corpus + boundary list + seeded random histories: populations of 1..6 clones of two blueprints "
@@ -57,10 +91,20 @@ class C11(Prop):
             "0/1/n/out-of-range), query, destruct(self/other), clone(+enable), error, timer-fired and heart_beats(), the "
             "same operations between ticks, 3..25 ticks; a case is non-trivial when its trace has a beat; distinct = "
             "distinct canonical implementation trace")
-    not_covered = ["truncation of a round by the real timer thread is an explicit scripted operation (the thread is C19)",
+    not_covered = ["error_handler's switch-off and the list search / memmove of set_heart_beat are tied by correspondence only (not extracted)",
+                   "timer_flags without TIMER_FLAG_HEARTBEAT (no round at all), perc_hb_probes / num_hb_calls statistics",
+                   "replace_program() is not scripted (call_heart_beat re-reads ob->prog->heart_beat on every visit: same branch as /c11/nohb)",
+                   "truncation of a round by the real timer thread is an explicit scripted operation (the thread is C19)",
                    "command_giver / current_interactive / eval_cost handling around the heart_beat call",
                    "reload_object() (also calls set_heart_beat(ob, 0)) is not scripted",
                    "errors caught by catch() inside a heart_beat (they do not reach the uncaught branch of error_handler)"]
+
+    def gen_extra(self, ctx, bdir):
+        """T4: the decisive conditions / updates of set_heart_beat, f_set_heart_beat and call_heart_beat, recovered from
+        the clang AST of the working tree (props/c11_extract.py); raises TieBroken when a site cannot be located"""
+        from props import c11_extract
+        text, self.extracted = c11_extract.extract(bdir)
+        return text
 
     def prepare(self, ctx):
         self.exe = E.compile_harness("c11", [os.path.join(E.VERIF, "harness/c11/c11.c")])
@@ -183,8 +227,25 @@ class C11(Prop):
     def generate(self, rng, n, tier):
         return [self.gen_case(rng, "g%d" % i) for i in range(n)]
 
+    def branch_histogram(self, cases):
+        """which branches of the modelled C functions the cases take (model-side instrumentation; the traces of the
+        same cases agree with the implementation, see correspondence_differences)"""
+        out = E.nvdrive(self.id, "branches", E.cases_text(cases))
+        cnt = {b: 0 for b in BRANCHES}
+        ctx = {}
+        for tags in out.values():
+            for t in tags:
+                base = t.split(":", 1)[1] if t.split(":", 1)[0] in ("create", "destruct", "error") else t
+                cnt[base] = cnt.get(base, 0) + 1
+                if base != t:
+                    k = t.split(":", 1)[0]
+                    ctx[k] = ctx.get(k, 0) + 1
+        return {"counts": cnt, "never_hit": sorted(b for b in BRANCHES if cnt.get(b, 0) == 0),
+                "set_heart_beat_called_from": ctx,
+                "extracted_forms": getattr(self, "extracted", None)}
+
     def histogram(self, cases, impl):
-        h = {"ticks": 0, "aborted_rounds": 0, "beats": 0, "removals_in_round": 0, "appends_in_round": 0,
+        h = {"branches": self.branch_histogram(cases),"ticks": 0, "aborted_rounds": 0, "beats": 0, "removals_in_round": 0, "appends_in_round": 0,
              "destructs": 0, "clones": 0, "errors": 0, "timer_fired": 0, "clamped_intervals": 0,
              "self_removals_in_round": 0}
         for c in cases:
